@@ -76,6 +76,18 @@ def h_class(ctx, cls, n, where):
     return _rt_obs(ctx, t)
 
 
+def h_twins(ctx, cls, n):
+    """two packed values in one stanza, read by one decoder: an odd-length value X and the even-length X + its padding character
+    (same packed bytes, only the odd flag differs), in both orders"""
+    enc, dec, td, N = CC.lib()
+    x = CC.classed_string(ctx, "s", n, cls)
+    pad = "F" if cls != "digits" else "0"
+    order = ctx.choice("order", ["odd first", "even first"])
+    a, b = (x, x + pad) if order == "odd first" else (x + pad, x)
+    t = N("receipt", {"id": a, "t": "1"}, [N("x", {"id": b})])
+    return _rt_obs(ctx, t)
+
+
 def h_longstr(ctx, n, where):
     """strings beyond the 8-bit length form: one unconstrained character + concrete filler (length handling of 252/253/254 string forms)"""
     enc, dec, td, N = CC.lib()
@@ -166,6 +178,9 @@ def cases(tier):
     for slot in ("val", "tag", "data"):
         cs.append(dict(name="after-rejected-stanza[%s,n=1]" % slot, fn=h_after_rejected, args=(slot, 1), weight=20, timeout_s=150 if q else 3000, max_paths=400000))
     lens = (1, 2, 3, 4, 126, 127, 128, 129, 254, 255) if q else tuple(range(1, 256))
+    for cls in ("HEX-only", "digits"):
+        for n in ((1, 3) if q else (1, 3, 5, 7)):
+            cs.append(dict(name="twins[%s,n=%d]" % (cls, n), fn=h_twins, args=(cls, n), timeout_s=300 if q else 1200))
     for cls in ("digits", "nibble", "hex", "HEX-only"):
         for n in lens:
             if n > 6 and cls in ("nibble", "hex"):
